@@ -905,7 +905,8 @@ def malform(rng, d):
         ic["machines"]["prebuffer"] = [{"type": "stack"}]
     elif kind == "short_row" and "logistics" in ic:
         sp = ic["logistics"]["specification"].rstrip("\n").split("\n")
-        sp[-1] = sp[-1].rsplit(None, 1)[0]
+        r_ = rng.randrange(1, len(sp)) if len(sp) > 1 else -1
+        sp[r_] = sp[r_].rsplit(None, 1)[0]
         ic["logistics"]["specification"] = "\n".join(sp) + "\n"
     elif kind == "setup_missing_machine" and "setup_times" in ic:
         ic["setup_times"] = ic["setup_times"][1:]
@@ -917,11 +918,13 @@ def malform(rng, d):
         ic["instance"]["specification"] = spec.replace("(m0,t)", "m0,t", 1)
     elif kind == "neg_travel" and "logistics" in ic:
         sp = ic["logistics"]["specification"].split("\n")
-        if len(sp) > 1 and "|" in sp[1]:
-            a, b = sp[1].split("|", 1)
+        rows = [k for k in range(1, len(sp)) if "|" in sp[k]]
+        if rows:
+            r_ = rng.choice(rows)                       # any row, any column (not only the last one)
+            a, b = sp[r_].split("|", 1)
             vals = b.split()
-            vals[-1] = "-4"
-            sp[1] = a + "|" + " ".join(vals)
+            vals[rng.randrange(len(vals))] = "-4"
+            sp[r_] = a + "|" + " ".join(vals)
             ic["logistics"]["specification"] = "\n".join(sp)
     elif kind == "float_duration" and jl:
         k = rng.choice(jl)
